@@ -4,7 +4,8 @@ Real code driven (in-process, from $VERIF_REPO):
 * pyatv.support.map_range, pyatv.protocols.airplay.utils.pct_to_dbfs / dbfs_to_pct;
 * pyatv.core.facade.FacadeAppleTV / FacadeAudio, with the protocol Audio instances added
   through `add_protocol(SetupData(...))` + `connect()` exactly as pyatv.connect does;
-* a recording stub Audio (guards), the real pyatv.protocols.raop.RaopAudio over the real
+* a recording stub Audio (guards), the real pyatv.protocols.companion.CompanionAudio (fake
+  CompanionAPI playing the device), the real pyatv.protocols.raop.RaopAudio over the real
   RaopPlaybackManager / StreamContext / StreamClient (fake RTSP session), the real
   pyatv.protocols.mrp.MrpAudio (fake MrpProtocol: records sends, plays the device).
 
@@ -379,6 +380,103 @@ def check_guards(ctx):
             ctx.fail(sig, {"kind": "guard", "x": repr(x), "hex": float(x).hex()}, what, "see property C20", what)
 
 
+# ---------------------------------------------------------------------------- facade over CompanionAudio
+async def companion_cases(xs):
+    """Real CompanionAudio behind the facade, fake CompanionAPI playing the device: for each x
+    the device first reports level x/100 (read), then the user sets x."""
+    from pyatv.const import Protocol
+    from pyatv.core import CoreStateDispatcher, ProtocolStateDispatcher
+    from pyatv.protocols.companion import CompanionAudio, MediaControlFlags
+    from pyatv.protocols.companion.api import MediaControlCommand
+
+    sent = []
+
+    class Api:
+        device_level = 0.0
+
+        def listen_to(self, name, func):
+            self.handler = func
+
+        async def mediacontrol_command(self, command, args=None):
+            if command == MediaControlCommand.SetVolume:
+                sent.append(args["_vol"])
+                asyncio.ensure_future(self.handler({"_mcF": int(MediaControlFlags.Volume)}))   # device acknowledges
+                return {}
+            return {"_c": {"_vol": self.device_level}}
+
+        async def hid_command(self, down, command):
+            return None
+
+    class FakeCore:
+        pass
+
+    core_dispatcher = CoreStateDispatcher()
+    core = FakeCore()
+    core.state_dispatcher = ProtocolStateDispatcher(Protocol.Companion, core_dispatcher)
+    api = Api()
+    audio = CompanionAudio(api, core)
+    atv = await make_atv(core_dispatcher, Protocol.Companion, audio)
+    out = []
+    for x in xs:
+        api.device_level = x / 100.0
+        await api.handler({"_mcF": int(MediaControlFlags.Volume)})
+        reported = audio._volume
+        try:
+            rd = ("ok", atv.audio.volume)
+        except Exception as exc:
+            rd = ("err", err_class(exc))
+        del sent[:]
+        try:
+            await atv.audio.set_volume(x)
+            st = ("ok", None)
+        except Exception as exc:
+            st = ("err", err_class(exc))
+        out.append((reported, rd, st, list(sent)))
+        for _ in range(3):
+            await asyncio.sleep(0)
+    return out
+
+
+def companion_problems(x, reported, rd, st, sent):
+    problems = []
+    if rd[0] == "ok" and not in_pct(rd[1]):
+        problems.append(("companion:read-out-of-range", f"audio.volume returned {rd[1]!r}"))
+    if rd[0] == "err" and (in_pct(reported) or rd[1] != "protocol"):
+        problems.append(("companion:read-wrong-exception", f"audio.volume raised {rd[1]} for reported level {reported!r}"))
+    for lvl in sent:
+        if not (isinstance(lvl, float) and 0.0 <= lvl <= 1.0):
+            problems.append(("companion:sent-out-of-range", f"_vol {lvl!r} sent to the device"))
+    if in_pct(x) and (st[0] != "ok" or sent != [x / 100.0]):
+        problems.append(("companion:in-range-not-forwarded", f"set_volume({x!r}) -> {st}, sent {sent!r}"))
+    if not in_pct(x) and (st[0] != "err" or st[1] != "protocol" or sent):
+        problems.append(("companion:set-wrong-exception", f"set_volume({x!r}) -> {st}, sent {sent!r} (ProtocolError required)"))
+    return problems
+
+
+def check_companion(ctx, only=None):
+    rng = ctx.rng.fork("companion")
+    xs = only if only is not None else specials() + grid(-1.0, 101.0, 2) + random_doubles(rng, ctx.scale(300, 3000), -1.0, 101.0)
+    xs = [x for x in xs if not (math.isfinite(x) and abs(x) > 1e300)]
+    results = vloop.run(companion_cases, xs)
+    lines = []
+    for x, (reported, rd, st, sent) in zip(xs, results):
+        lines += [f"fread {tok(reported)}", f"fset {tok(x)}"]
+    answers = iter(ctx.lean(lines))
+    for x, (reported, rd, st, sent) in zip(xs, results):
+        ctx.case(["companion", tok(x)], not (0.0 < x < 100.0))
+        ctx.note("companion:" + ("in" if in_pct(x) else "out"))
+        m_read, m_set = next(answers), next(answers)
+        i_read = f"ok:{tok(rd[1])}" if rd[0] == "ok" else f"err:{rd[1]}"
+        i_set = "ok:" + tok(x) if st[0] == "ok" and len(sent) == 1 else f"err:{st[1]}" if st[0] == "err" else f"odd:{sent!r}"
+        if m_read != i_read:
+            ctx.disagree({"kind": "companion-read", "reported": tok(reported)}, i_read, m_read, where="facade over CompanionAudio: volume")
+        if m_set != i_set:
+            ctx.disagree({"kind": "companion-set", "x": tok(x)}, i_set, m_set, where="facade over CompanionAudio: set_volume")
+        ctx.validated(2)
+        for sig, what in companion_problems(x, reported, rd, st, sent):
+            ctx.fail(sig, {"kind": "companion", "x": repr(x), "hex": float(x).hex()}, what, "see property C20", what)
+
+
 # ---------------------------------------------------------------------------- histories
 class Rig:
     """Common recording for a facade-over-real-protocol-Audio history."""
@@ -680,8 +778,8 @@ def check_histories(ctx, utils, only=None):
             ("mrp", [("set", 98.0), ("up", None), ("up", None), ("set", 2.0), ("down", None), ("down", None)], {"initial": 0.2}),
         ]
         todo += fixed
-        for _ in range(ctx.scale(600, 5000)):
-            n = rng.randint(1, 14)
+        for _ in range(ctx.scale(600, 15000)):
+            n = rng.randint(1, ctx.scale(14, 30))
             if rng.chance(0.6):
                 burst = sorted(rng.sample(range(n), rng.randint(0, n // 2))) if rng.chance(0.3) else []
                 todo.append(("raop", random_history(rng, n), {"client": rng.chance(0.5), "burst": burst}))
@@ -806,6 +904,7 @@ def run(ctx):
 
     check_conversions(ctx, utils, support)
     check_guards(ctx)
+    check_companion(ctx)
     check_histories(ctx, utils)
     check_reachable(ctx, utils)
 
@@ -832,6 +931,10 @@ def replay(ctx, failure):
         x = float.fromhex(case["hex"])
         rd, st, received = vloop.run(guard_case, x)
         return bool(guard_problems(x, rd, st, received))
+    if kind == "companion":
+        x = float.fromhex(case["hex"])
+        (reported, rd, st, sent), = vloop.run(companion_cases, [x])
+        return bool(companion_problems(x, reported, rd, st, sent))
     if kind == "history":
         ops = [(o, None if h is None else float.fromhex(h)) for o, h in case["ops"]]
         opt = case["options"]
